@@ -362,8 +362,12 @@ def playback_native(h, test_src):
             env["CARGO_PROFILE_TEST_OPT_LEVEL"] = "2"
         else:
             env = ENV
-        p = subprocess.run(cmd, cwd=scratch, env=env, stdout=subprocess.PIPE, stderr=subprocess.STDOUT,
-                           text=True, timeout=900)
+        try:
+            p = subprocess.run(cmd, cwd=scratch, env=env, stdout=subprocess.PIPE, stderr=subprocess.STDOUT,
+                               text=True, timeout=900)
+        except subprocess.TimeoutExpired:
+            results[prof] = {"reproduced": False, "built": False, "tail": "native playback timed out (900 s)"}
+            continue
         failed = ("test result: FAILED" in p.stdout) or ("panicked at" in p.stdout) or p.returncode != 0
         built = ("running 1 test" in p.stdout) or ("test result:" in p.stdout) or ("panicked at" in p.stdout)
         results[prof] = {"reproduced": bool(failed and built), "built": built, "tail": p.stdout[-1500:]}
